@@ -17,13 +17,6 @@ static long decode_packed_entry_number(codebook *book, oggpack_buffer *b)
   __CPROVER_requires(book->used_entries >= 1)
   __CPROVER_assigns(g_decodes)
   __CPROVER_ensures(RV >= -1 && RV < book->used_entries && g_decodes == OLD(g_decodes) + 1)
-#ifdef VERIF_MUL_LEMMA
-  /* ASSUMED arithmetic lemma (monotonicity of multiplication, no solver here decides
-     it in reasonable time): 0 <= e < u and d >= 1  ==>  e*d + d <= u*d.  No wrap-around:
-     u*d <= 2^24 by VBOOK_OK.  Written over the very term the code computes
-     ((long)(int)entry * dim). */
-  __CPROVER_ensures(RV >= 0 ==> ((long)(int)RV * book->dim >= 0 && (long)(int)RV * book->dim + book->dim <= book->used_entries * book->dim))
-#endif
   ;
 
 /* INV_BOOK (value part), as vorbis_book_init_decode leaves a book that passed the
